@@ -492,7 +492,11 @@ fn check_knn(c: &KnnCase) -> Result<(), String> {
     let cdim = (width / mcw).ceil();
     let cw = width / cdim;
     let per_particle = (width.length() / cw.min_element()).ceil() as u64 + 4;
-    let budget = n as u64 * per_particle + 16;
+    // That number is what THIS ring search needs. The property only demands that a result comes back, so
+    // the budget is 64 times that (a correct search that scans twice, or re-scans on suspected ties, must
+    // not be called non-terminating - the neutral refactoring n20c was, at factor 1); a search that does
+    // not terminate exceeds any factor.
+    let budget = 64 * (n as u64 * per_particle + 16);
     let nn = match with_budget(budget, move || lib::space_knn(anchor, width, mcw, &pts, k)) {
         Ok((x, steps)) => {
             KNN_STEPS.with(|s| s.set(s.get() + steps));
